@@ -9,6 +9,7 @@
 //!            "scripts":{"logs":["s500","dropa",..],..},                per-endpoint decisions
 //!            "refuse":{"logs":n}                                      endpoint refuses connections
 //!                                                                     until n connects failed
+//!            "pad":"rep"|"rnd"                                        attribute content: repeated / pseudo-random
 //!            "flush_after":[k..]                                      also flush after the k-th event
 //!            "predict":{"logs":[{"ids":[k..],"dec":class}]}}          level-B prediction (soft)
 //!
@@ -35,6 +36,24 @@ fn dec_class(d: &str, ack: bool) -> &'static str {
         _ if ack => "ack",
         _ => "reject",
     }
+}
+
+fn make_pad(len: usize, random: bool, salt: u64) -> String {
+    if !random {
+        return "p".repeat(len);
+    }
+    const ALPHABET: &[u8; 64] = b"ABCDEFGHIJKLMNOPQRSTUVWXYZabcdefghijklmnopqrstuvwxyz0123456789+/";
+    let mut rng = Rng::from_env(0xC12 ^ (salt << 20) ^ len as u64);
+    let mut out = String::with_capacity(len + 10);
+    while out.len() < len {
+        let mut w = rng.next();
+        for _ in 0..10 {
+            out.push(ALPHABET[(w & 63) as usize] as char);
+            w >>= 6;
+        }
+    }
+    out.truncate(len);
+    out
 }
 
 fn sample(src: &emit_otlp::OtlpMetrics) -> HashMap<String, u64> {
@@ -72,11 +91,16 @@ fn run_scenario(coll: &Collector, s: &Value, flush_timeout: Duration) -> Outcome
         }
     }
     let sc = coll.scenario(proto, scripts, refusing);
+    let ports: Vec<u16> = SIGNALS.iter().map(|g| sc.ep(*g).addr.port()).collect();
+    let timeouts0 = client::client_timeouts(&ports);
     let otlp = client::build(&sc, proto, gzip, &signals);
     let src = otlp.metric_source();
     emit_otlp::verif::set_max_request_size_bytes(if unit_cfg == 0 { None } else { Some(limit * unit) });
     let mut trace = vec![json!({"ev": "Reset", "sc": scn, "http1": !proto.is_grpc()})];
-    let pads: HashMap<usize, String> = s["events"].as_array().unwrap().iter().map(|e| e["size"].as_u64().unwrap() as usize).map(|z| (z, "p".repeat(z * unit))).collect();
+    // payload content: "rep" = one repeated character (compresses to almost nothing),
+    // "rnd" = seeded pseudo-random base64-like text (hardly compressible)
+    let rnd_pad = s["pad"].as_str() == Some("rnd");
+    let pads: HashMap<usize, String> = s["events"].as_array().unwrap().iter().map(|e| e["size"].as_u64().unwrap() as usize).map(|z| (z, make_pad(z * unit, rnd_pad, scn))).collect();
     let t0 = Instant::now();
     let mut panics = Vec::new();
     let mid_flushes: Vec<u64> = s["flush_after"].as_array().map(|a| a.iter().filter_map(|x| x.as_u64()).collect()).unwrap_or_default();
@@ -141,7 +165,7 @@ fn run_scenario(coll: &Collector, s: &Value, flush_timeout: Duration) -> Outcome
                 trace.push(json!({
                     "ev": "Req", "ep": e["ep"], "sig": e["sig"].as_str().unwrap_or("none"), "conn": e["conn"],
                     "known": known, "ids": if known { e["ids"].clone() } else { json!([]) },
-                    "dec": dec, "ack": ack, "bad": !e["err"].is_null(), "raw": e["dec"], "err": e["err"].as_str().unwrap_or(""), "t": e["t"],
+                    "dec": dec, "ack": ack, "bad": !e["err"].is_null(), "raw": e["dec"], "err": e["err"].as_str().unwrap_or(""), "t": e["t"], "gz": e["gzip"], "bytes": e["bytes"],
                 }));
             }
             "Flush" => {
@@ -180,7 +204,13 @@ fn run_scenario(coll: &Collector, s: &Value, flush_timeout: Duration) -> Outcome
             }
         }
     }
+    // every stall the collector scripted costs the client exactly one timeout; more timeouts
+    // than stalls means the machine was too slow for the (shortened) request timeout
+    let client_timeouts = client::client_timeouts(&ports) - timeouts0;
+    let stalls = trace.iter().filter(|e| e["ev"] == "Req" && (e["dec"] == "stall" || e["dec"] == "after_stall")).count() as u64;
+    let abandoned = snap.iter().filter(|e| e["ev"] == "Abandoned").count();
     let summary = json!({
+        "client_timeouts": client_timeouts, "stalls": stalls, "abandoned": abandoned,
         "sc": scn, "flush": ok, "wall_ms": wall, "requests": nreq, "max_request_bytes": max_bytes,
         "clientfails": clientfails, "panics": panics, "drift": drift, "tool_errors": tool_errors,
         "script_left": SIGNALS.iter().map(|g| sc.ep(*g).script_left()).sum::<usize>(),
